@@ -1,0 +1,7 @@
+//go:build !verif
+
+package bloom
+
+// verifOnAdd is the insertion observer of the runtime-monitoring harness; it
+// does nothing unless the package is built with -tags verif.
+func verifOnAdd(*Filter, []byte) {}
